@@ -69,7 +69,8 @@ class Gen:
                       case=True, inlist=True, lateral=False, semi=False, max_depth=3, join_bias=False, views=False)
         if opts:
             self.o.update(opts)
-        self.ctes = []     # (name, Q) available for FROM
+        self.ctes = []     # (name, Q) available for FROM in the block being generated
+        self.cte_all = []  # every CTE of the statement
         self.prelude = []  # statements to run before the query (views)
         self.views = []    # (name, Q) created by the prelude
         self.view_n = 0
@@ -451,6 +452,17 @@ class Gen:
 
     # ------------------------------------------------------------ SELECT blocks
     def select(self, outer, depth, want=None, classes=None, force_global_agg=False, plain=False, corr=True, top=False):
+        """every SELECT block may reference each CTE of the statement once (two references inside ONE FROM clause
+        share table refs in the engine: listed finding); different blocks (union branches, subqueries, derived
+        tables) are independent, so a CTE can be referenced several times per statement"""
+        parent = self.ctes
+        self.ctes = list(self.cte_all) if self.o.get("cte_multi", True) else parent
+        try:
+            return self._select(outer, depth, want, classes, force_global_agg, plain, corr, top)
+        finally:
+            self.ctes = parent
+
+    def _select(self, outer, depth, want=None, classes=None, force_global_agg=False, plain=False, corr=True, top=False):
         """A SELECT block.  want: list of output types or None.  Returns Q (sql without trailing ORDER BY)."""
         r = self.rng
         classes = classes if classes is not None else set()
@@ -673,6 +685,7 @@ class Gen:
         classes = set()
         with_sql = ""
         self.ctes = []
+        self.cte_all = []
         if self.o["views"] and r.chance(30) and len(self.views) < 4:
             self.view_n += 1
             vname = "v%d" % self.view_n
@@ -685,6 +698,7 @@ class Gen:
             cq = self.select([], depth - 1, classes=set(), plain=r.chance(50))
             mat = r.chance(30)
             self.ctes.append((cname, cq))
+            self.cte_all.append((cname, cq))
             with_sql = "WITH %s AS %s(%s) " % (cname, "MATERIALIZED " if mat else "", cq.sql)
             classes.add("cte_def")
             if mat:
@@ -741,7 +755,9 @@ TEXT_SHORT = ["", "a", "a", "b", "ab", "abc", "B", "é", "abcdefghijklmnop", "x 
 # lengths around the 12-byte inline threshold of string views, and long values that share their first 12+ bytes
 # (sort keys carry a 12-byte prefix; ties on it are resolved by comparing the heap strings)
 TEXT_EDGE = ["elevenchars", "twelve_chars", "thirteenchars", "twelve_chars", "twelve_charz", "shared_prefix_A", "shared_prefix_B",
-             "shared_prefix_", "shared_prefix_AA", "élevenchar", "", "a", "b"]
+             "shared_prefix_", "shared_prefix_AA", "élevenchar", "", "a", "b",
+             # strings that differ only in trailing NUL bytes (the 12-byte key prefix is zero padded)
+             "a\x00", "a\x00\x00", "twelve_char\x00", "b\x00"]
 
 
 def make_db(rng, ntables=3, max_rows=30, edge_text=None):
